@@ -241,6 +241,15 @@ void f_implode (void) {
     {
       /* st_num_arg == 2 here */
       char *str;
+      size_t total = 0, dlen = SVALUE_STRLEN (sp);
+      int i;
+
+      /* the result must respect MaxStringLength like any other LPC string */
+      for (i = 0; i < arr->size; i++)
+        if (arr->item[i].type == T_STRING)
+          total += SVALUE_STRLEN (&arr->item[i]) + dlen;
+      if (total > dlen && total - dlen > (size_t) CONFIG_INT (__MAX_STRING_LENGTH__))
+        error ("*implode: result string too long.");
 
       str = implode_string (arr, sp->u.string, SVALUE_STRLEN (sp));
       free_string_svalue (sp--);
